@@ -35,6 +35,8 @@ def replay(rp):
         return wk.warm_replay(rp['input'])
     if 'copied_simulator' in rp.get('input', {}):
         return wk.copied_replay(rp['input'], oracle)
+    if 'pre_extra' in rp.get('input', {}):
+        return wk.pre_extra_replay(rp['input'])
     k = wk.from_description(rp['input'])
     try:
         w = wk.run_case(k)
